@@ -99,6 +99,9 @@ def case_percentile(case):
     x, y = np.arange(nx) * dx, np.arange(ny) * dy
     Y2, X2 = np.meshgrid(y, x, indexing="ij")
     grids = {"2d": (X2, Y2, np.zeros(shape)), "1d": (x, y, np.zeros(1))}
+    # the same cells on rasters whose axes run the other way (north-up image rows, reversed x): the field is flipped
+    # together with its coordinates, so level and area must not change
+    flips = {"y-desc": (slice(None, None, -1), slice(None)), "x-desc": (slice(None), slice(None, None, -1)), "xy-desc": (slice(None, None, -1), slice(None, None, -1))}
     v = []
     n = 0
     fs = [f for f in itertools.product(case["fvals"], repeat=ncell) if any(f)]
@@ -129,6 +132,15 @@ def case_percentile(case):
                 if not ok:
                     v.append({"sub": "percentile", "sig": "percentile/%s" % ("knife-edge" if slack == 0 else "interior"),
                               "msg": "f=%s p=%s (%s coords): returned level %r area %r; the fewest top cells reaching p*total are %d (level %s, area %s)" % (list(f), p, gname, level, area, k, float(lev), k * dx * dy)})
+            if len(v) < 6:
+                for fname, (sj, si) in flips.items():
+                    for gname, gg in (("2d", (X2[sj, si], Y2[sj, si], np.zeros(shape))), ("1d", (x[si], y[sj], np.zeros(1)))):
+                        level, area = extract_percentile_contour(fa[sj, si], gg, pct=pf)
+                        n += 1
+                        ok = (area == k * dx * dy and level == float(lev)) or (k_alt is not None and area == k_alt[0] * dx * dy and level == float(k_alt[1]))
+                        if not ok:
+                            v.append({"sub": "percentile-axes", "sig": "percentile-axes/%s" % fname, "msg": "f=%s p=%s on a raster with %s coordinates (%s arrays): level %r area %r, expected level %s area %s" % (list(f), p, fname, gname, level, area, float(lev), k * dx * dy)})
+                            break
             if prev is not None and len(v) < 6:
                 level, area = extract_percentile_contour(fa, grids["2d"], pct=pf)
                 if area < prev[1] or level > prev[0]:
